@@ -4,8 +4,8 @@
 Require Extraction.
 Require Import ExtrOcamlBasic.
 From Coq Require Import List NArith.
-From V Require Import Spec.Bfun Spec.Transform Spec.BddSpec Checkers.Check.
-From V Require Import Base.Res Gen.Tables Model.Kernels Model.Canon Model.Decomp Model.Bdd Model.TwoLevel Model.Api.
+From V Require Import Spec.Bfun Spec.Transform Spec.BddSpec Spec.TwoLevelCost Checkers.Check.
+From V Require Import Base.Res Gen.Tables Model.Kernels Model.Canon Model.Decomp Model.Bdd Model.TwoLevel Model.Api Model.Mip.
 Extraction Language OCaml.
 Set Extraction KeepSingleton.
 Extraction "model.ml"
@@ -41,4 +41,7 @@ Extraction "model.ml"
   esop_zero esop_one esop_num_cubes esop_num_lits esop_is_zero esop_is_one esop_from_cubes esop_value esop_xor
   esop_not esop_from_lut esop_to_lut esop_display
   soes_zero soes_one soes_num_cubes soes_num_lits soes_is_zero soes_is_one soes_from_cubes soes_value soes_or
-  soes_to_lut soes_display.
+  soes_to_lut soes_display
+  (* mip programmes (C18) *)
+  sop_program esop_program program_canon chk_sop_opt chk_sopes_opt chk_esop_opt sop_cost sopes_cost esop_cost
+  sop_solution_ok sopes_solution_ok esop_solution_ok.
